@@ -145,12 +145,19 @@ def collapse_expected(spec, reference):
             continue
         shape = (n_ref,) + moved.shape[1:]
         res = {k: np.full(shape, np.nan) for k in
-               ("mean", "std", "max", "median", "scale")}
+               ("mean", "std", "max", "median", "scale", "first", "last")}
         res["number"] = np.zeros(shape, dtype=int)
+        most = max(len(p) for p in partners)
         for r in range(n_ref):
             block = [moved[s] for s in partners[r]]
             for idx in np.ndindex(*moved.shape[1:]):
                 column = [float(b[idx]) for b in block]
+                # partner values in pair order: the first one, and the one in
+                # the last of the `most` slots (padding = NaN if this
+                # reference point has fewer partners than the busiest one)
+                res["first"][(r,) + idx] = column[0]
+                if len(column) == most:
+                    res["last"][(r,) + idx] = column[-1]
                 mean, std, cnt, mx, med, scale = _nan_stats(column)
                 res["mean"][(r,) + idx] = mean
                 res["std"][(r,) + idx] = std
